@@ -8,7 +8,7 @@ Any violation the reference finds => VALIDATION_ERROR with an empty effect log; 
 import itertools
 import os
 
-from mc import world, procseam, cli
+from mc import world, procseam, cli, kf
 from mc.result import Result
 
 PROPERTY = 'C08'
@@ -240,6 +240,40 @@ def _twice(res, case, w, seam):
     return res
 
 
+def _cleanup_ref(res, case, w, seam):
+    """An instruction of phase F fails; X is defined before / after it (same phase) or in a later phase; [cleanup] refers to X."""
+    _, fphase, dphase, where = case
+    fail = {'setup': 'run % failing', 'before-assert': 'run % failing', 'assert': 'exit-code == 99'}[fphase]
+    want_ident = 'FAIL' if fphase == 'assert' else 'HARD_ERROR'
+    blocks = {p: [] for p in PHASES}
+    blocks['act'] = ['% atc']
+    d = "def string X = 'the value'"
+    if dphase == fphase:
+        blocks[fphase] += [d, fail] if where == 'before' else [fail, d]
+    else:
+        blocks[fphase].append(fail)
+        blocks[dphase].append(d)
+    blocks['cleanup'] = ['run % probe "@[X]@"']
+    seam.script['failing'] = {'exit': 3}
+    text = '\n'.join(sum([['[%s]' % p] + blocks[p] for p in PHASES], [])) + '\n'
+    o = cli.run_case(text)
+    pc = [c['args'][1:] for c in seam.calls if c['name'] == 'probe']
+    errs = []
+    if o.ident != want_ident:
+        errs.append('the failing instruction in [%s] gives %s; got %s / %s' % (fphase, want_ident, o.ident, ' / '.join(cli.stderr_lines(o.err)[-3:])[:260]))
+    if pc != [['the value']]:
+        errs.append("[cleanup] refers to X (defined in [%s] %s the failing instruction): the probe must get ['the value'], got %s" % (dphase, where, pc))
+    res.outcomes[('cleanup-ref', where if dphase == fphase else 'later-phase', o.ident)] += 1
+    res.nontrivial += 1
+    if errs:
+        hit = kf.classify_c08(text, fphase, dphase, where, o.rc, o.out, o.err, pc)
+        if hit:
+            res.kf[hit] += 1
+        else:
+            res.violation(case, errs, {'file': text})
+    return res
+
+
 def expected_accept(row, ctx):
     _, typ, pure = ROWS[row]
     _, _, accepts, needs_pure = CONTEXTS[ctx]
@@ -268,6 +302,15 @@ def cases(tier):
     for row in ROWS:
         for ti in range(len(TWO_SLOT)):
             yield ('twice', row, ti)
+    # [cleanup] runs whatever happened: its references must evaluate to the defined values also when execution stopped early
+    for fphase in ('setup', 'before-assert', 'assert'):
+        for dphase in ('setup', 'before-assert', 'assert'):
+            if PHASES.index(dphase) < PHASES.index(fphase):
+                continue
+            for where in ('before', 'after'):
+                if where == 'before' and dphase != fphase:
+                    continue
+                yield ('cleanup-ref', fphase, dphase, where)
 
 
 def run(case) -> Result:
@@ -286,6 +329,8 @@ def run(case) -> Result:
         return _type(res, case, w, seam)
     if k == 'twice':
         return _twice(res, case, w, seam)
+    if k == 'cleanup-ref':
+        return _cleanup_ref(res, case, w, seam)
     return _value(res, case, w, seam)
 
 
